@@ -308,6 +308,8 @@ def durable_execution(
             invocation_input.checkpoint_token,
             invocation_input.initial_execution_state.next_marker,
         )
+        # the history may have arrived through later pages only
+        execution_state.enter_replay_if_history_loaded()
 
         durable_context: DurableContext = DurableContext.from_lambda_context(
             state=execution_state, lambda_context=context
